@@ -43,7 +43,7 @@ def obligations(ctx):
                 continue
         keep.append(o)
     from props._shared import typing_state_census
-    return list(keep + lemmas(ctx)) + [typing_state_census(ctx, 'C18')]
+    return list(keep + ctx.part(lemmas)) + ctx.part(lambda c_: [typing_state_census(c_, 'C18')], 'typing-state census')
 
 
 def lemmas(ctx):
